@@ -21,8 +21,9 @@ SPECS["C01"] = {
          "thorough_args": fix(maxlen=8), "quick_shards": 48, "thorough_shards": 64},
         {"name": "charset", "pkg": "charset", "harnesses": ["HC01Charset"], "quick_args": fix(maxlen=3), "thorough_args": fix(maxlen=4),
          "quick_shards": 8, "thorough_shards": 16},
+        {"name": "sequence", "pkg": "mimetype", "harnesses": ["HC05Seq"], "quick_args": fix(maxlen=2), "thorough_args": fix(maxlen=3), "quick_shards": 32, "thorough_shards": 64},
     ],
-    "must_reach": ["end"],
+    "must_reach": ["assert:second-detection-ok", "end"],
     "bounds": {"quick": {"non_looping_detectors": "header lengths 0..64 and all lengths within 4 bytes of every length guard up to 4196, all byte values, all uint32 limits",
                          "looping_detectors": "header length <= 10", "charset": "length <= 5"},
                "thorough": {"non_looping_detectors": "every header length 0..4300", "looping_detectors": "header length <= 20", "charset": "length <= 8"}},
@@ -37,8 +38,10 @@ SPECS["C07"] = {
     "units": [
         {"name": "text", "pkg": "magic", "harnesses": ["HC07Text"], "quick_args": fix(maxlen=48), "thorough_args": fix(maxlen=160),
          "quick_shards": 16, "thorough_shards": 32},
+        {"name": "sequence", "pkg": "mimetype", "harnesses": ["HC05Seq"], "quick_args": fix(maxlen=2), "thorough_args": fix(maxlen=3), "quick_shards": 32, "thorough_shards": 64},
+        {"name": "entry", "pkg": "mimetype", "harnesses": ["HC05Reader"], "quick_args": fix(maxlen=3), "thorough_args": fix(maxlen=4), "quick_shards": 16, "thorough_shards": 32},
     ],
-    "must_reach": ["end", "assert:text-iff-bom-or-no-binary-byte"],
+    "must_reach": ["assert:detect-slices-to-limit", "assert:second-detection-header-within-limit", "end", "assert:text-iff-bom-or-no-binary-byte"],
     "bounds": {"quick": {"header_length": "0..48, all byte values, all uint32 limits"}, "thorough": {"header_length": "0..160"}},
     "outside": ["headers longer than the bound (Text is a single loop over the header; no length-dependent state)"],
     "assumptions": ["only the first `limit` bytes reach the tree walk (checked by C04/C05 harnesses)"],
@@ -48,11 +51,11 @@ SPECS["C11"] = {
     "explanation": "charset.FromPlain on every byte string without binary-data bytes, against an independent RFC 3629 DFA (validCut), "
                    "the BOM table and the C1-range rule, all executed symbolically together with the real utf8.Valid.",
     "units": [
-        {"name": "plain", "pkg": "charset", "harnesses": ["HC11Plain"], "quick_args": fix(maxlen=4), "thorough_args": fix(maxlen=6),
-         "quick_shards": 16, "thorough_shards": 48},
+        {"name": "plain", "pkg": "charset", "harnesses": ["HC11Plain"], "quick_args": fix(maxlen=5), "thorough_args": fix(maxlen=6),
+         "quick_shards": 48, "thorough_shards": 64},
     ],
     "must_reach": ["end", "assert:utf8-only-if-valid", "assert:utf8-always-when-valid", "assert:cp1252-needs-c1-byte", "assert:latin1-excludes-c1-byte"],
-    "bounds": {"quick": {"length": "1..4, all byte values except binary-data bytes"}, "thorough": {"length": "1..6"}},
+    "bounds": {"quick": {"length": "1..5, all byte values except binary-data bytes"}, "thorough": {"length": "1..6"}},
     "outside": ["strings longer than the bound", "charset sniffing applied to the three text leaves is the tree-level claim shared with C02"],
     "assumptions": [],
 }
@@ -68,8 +71,9 @@ SPECS["C09"] = {
          "quick_shards": 32, "thorough_shards": 64},
         {"name": "sub", "pkg": "magic", "harnesses": ["HC09Sub"], "quick_args": fix(maxlen=4), "thorough_args": fix(maxlen=6),
          "quick_shards": 16, "thorough_shards": 64},
+        {"name": "alpha", "pkg": "magic", "harnesses": ["HC09Alpha"], "quick_args": fix(maxlen=8), "thorough_args": fix(maxlen=10), "quick_shards": 48, "thorough_shards": 64},
     ],
-    "must_reach": ["end", "assert:whole-json-implies-wellformed", "assert:prefix-json-implies-viable-prefix"],
+    "must_reach": ["assert:alpha-whole-json-implies-wellformed", "assert:alpha-prefix-json-implies-viable-prefix", "end", "assert:whole-json-implies-wellformed", "assert:prefix-json-implies-viable-prefix"],
     "bounds": {"quick": {"length": "<= 5 (sub-types <= 4), all 256 byte values, limits 0 / len+1 / len"}, "thorough": {"length": "<= 7 (sub-types <= 6)"}},
     "outside": ["documents longer than the bound", "nesting deeper than the bound allows"],
     "assumptions": [],
@@ -81,8 +85,10 @@ SPECS["C08"] = {
     "units": [
         {"name": "strict", "pkg": "magic", "harnesses": ["HC08"], "quick_args": fix(maxlen=5), "thorough_args": fix(maxlen=7),
          "quick_shards": 32, "thorough_shards": 64},
+        {"name": "depth", "pkg": "json", "harnesses": ["HC08Depth"], "quick_shards": 8, "thorough_shards": 8},
+        {"name": "entry", "pkg": "mimetype", "harnesses": ["HC05Reader"], "quick_args": fix(maxlen=3), "thorough_args": fix(maxlen=4), "quick_shards": 16, "thorough_shards": 32},
     ],
-    "must_reach": ["end", "assert:cut", "assert:whole-limit0"],
+    "must_reach": ["assert:within-cap-is-parsed", "end", "assert:cut", "assert:whole-limit0"],
     "bounds": {"quick": {"length": "2..5, all byte values (string contents restricted to printable ASCII)"}, "thorough": {"length": "2..7"}},
     "outside": ["documents longer than the bound", "string contents outside printable ASCII", "the 4096 nesting cap (C16)"],
     "assumptions": ["tree position of json under text/plain is covered by the tree-walk harnesses (C03)"],
@@ -96,8 +102,10 @@ SPECS["C16"] = {
         {"name": "guard", "pkg": "json", "harnesses": ["HC16Guard"], "quick_args": fix(maxlen=3), "thorough_args": fix(maxlen=5), "quick_shards": 16, "thorough_shards": 32},
         {"name": "depth", "pkg": "json", "harnesses": ["HC16Depth"], "quick_args": fix(maxlen=7), "thorough_args": fix(maxlen=10), "quick_shards": 16, "thorough_shards": 48},
         {"name": "pool", "pkg": "json", "harnesses": ["HC16Pool"], "quick_args": fix(maxlen=3), "thorough_args": fix(maxlen=5), "quick_shards": 8, "thorough_shards": 32},
+        {"name": "history", "pkg": "json", "harnesses": ["HC16History"], "args": ["-max-instr", "60000000"], "quick_shards": 5, "thorough_shards": 5},
+        {"name": "depthcap", "pkg": "json", "harnesses": ["HC08Depth"], "quick_shards": 8, "thorough_shards": 8},
     ],
-    "must_reach": ["end", "assert:beyond-cap-returns-0", "assert:stack-depth-bounded-by-cap", "assert:accepted-implies-nesting-within-cap", "assert:cap-unchanged-after-parse"],
+    "must_reach": ["assert:beyond-cap-is-refused", "assert:cap-survives-deep-history", "assert:bomb-beyond-cap-refused-after-history", "end", "assert:beyond-cap-returns-0", "assert:stack-depth-bounded-by-cap", "assert:accepted-implies-nesting-within-cap", "assert:cap-unchanged-after-parse"],
     "bounds": {"quick": {"guard": "input <= 3 bytes (all values), lvl and cap arbitrary 62-bit", "depth": "input <= 7 bytes over {[ ] { } \" : a space}, cap 1..3"},
                "thorough": {"guard": "<= 5 bytes", "depth": "<= 10 bytes"}},
     "outside": ["stack bytes per frame (constant by construction)", "inputs longer than the bound for the depth measurement; the guard step itself is for arbitrary level/cap"],
@@ -109,8 +117,10 @@ SPECS["C10"] = {
                    "structural alphabet), plus end-to-end sub-type verdicts of Detect on objects assembled from symbolic choices of sibling shapes, positions and whitespace.",
     "units": [
         {"name": "balance", "pkg": "json", "harnesses": ["HC10Balance"], "quick_args": fix(maxlen=6), "thorough_args": fix(maxlen=9), "quick_shards": 16, "thorough_shards": 48},
+        {"name": "verdict", "pkg": "mimetype", "harnesses": ["HC10Verdict"], "quick_args": fix(siblings=1), "quick_shards": 32, "thorough_shards": 64},
+        {"name": "history", "pkg": "json", "harnesses": ["HC04History"], "quick_args": fix(maxlen=3), "thorough_args": fix(maxlen=4), "quick_shards": 32, "thorough_shards": 64},
     ],
-    "must_reach": ["end", "assert:array-balanced", "assert:object-balanced"],
+    "must_reach": ["assert:history-same-query-verdict", "assert:subtype-verdict-whole", "assert:subtype-verdict-cut-after-deciding-member", "end", "assert:array-balanced", "assert:object-balanced"],
     "bounds": {"quick": {"balance": "input <= 6 bytes over {[ ] { } \" : , 1 a space}, stack height 0..2"}, "thorough": {"balance": "<= 9 bytes"}},
     "outside": ["inputs longer than the bound"],
     "assumptions": [],
@@ -137,7 +147,7 @@ SPECS["C14"] = {
     "units": [
         {"name": "extend", "pkg": "mimetype", "harnesses": ["HC14Extend"], "quick_args": fix(tier=0), "thorough_args": fix(tier=1), "quick_shards": 32, "thorough_shards": 64},
     ],
-    "must_reach": ["end", "assert:lookup-alias", "assert:rejected-by-all-extensions-implies-unchanged", "assert:matching-extension-wins-over-older-siblings", "assert:earlier-result-unaffected"],
+    "must_reach": ["end", "assert:lookup-alias-is-first-in-walk-order", "assert:lookup-agrees-with-walk-order", "assert:rejected-by-all-extensions-implies-unchanged", "assert:matching-extension-wins-over-older-siblings", "assert:earlier-result-unaffected"],
     "bounds": {"quick": {"extends": "1 or 2 Extend calls at {root (package level and method), text, zip, json, ole, html, docx, geojson, the first extension, the first extension's parent}; 0..2 aliases"},
                "thorough": {"extends": "as quick, plus 1 Extend at every one of the 179 nodes"}},
     "outside": ["more than two Extend calls", "extension detectors that are not pure"],
@@ -151,8 +161,9 @@ SPECS["C05"] = {
     "units": [
         {"name": "reader", "pkg": "mimetype", "harnesses": ["HC05Reader"], "quick_args": fix(maxlen=4), "thorough_args": fix(maxlen=6), "quick_shards": 32, "thorough_shards": 64},
         {"name": "file", "pkg": "mimetype", "harnesses": ["HC05File"], "quick_args": fix(maxlen=3), "thorough_args": fix(maxlen=5), "quick_shards": 16, "thorough_shards": 32},
+        {"name": "sequence", "pkg": "mimetype", "harnesses": ["HC05Seq"], "quick_args": fix(maxlen=2), "thorough_args": fix(maxlen=3), "quick_shards": 32, "thorough_shards": 64},
     ],
-    "must_reach": ["end", "assert:same-header-bytes", "assert:error-is-surfaced", "assert:reader-consumes-at-most-limit", "assert:open-error-yields-errMIME", "assert:file-closed"],
+    "must_reach": ["assert:second-detection-consumes-at-most-limit", "end", "assert:same-header-bytes", "assert:error-is-surfaced", "assert:reader-consumes-at-most-limit", "assert:open-error-yields-errMIME", "assert:file-closed"],
     "bounds": {"quick": {"data": "<= 4 bytes (symbolic), all chunk compositions, EOF with/without data, error at every offset with/without data, limits {0,1..6,3072}"},
                "thorough": {"data": "<= 6 bytes, limits {0,1..8,3072}"}},
     "outside": ["readers that violate the io.Reader contract", "real file-system behaviour (os.Open/Read/Close are contract stubs)", "limits outside the enumerated set"],
@@ -170,8 +181,10 @@ SPECS["C04"] = {
         {"name": "csvpool", "pkg": "magic", "harnesses": ["HC04CsvPool"], "quick_args": fix(maxlen=4), "thorough_args": fix(maxlen=6), "quick_shards": 32, "thorough_shards": 64},
         {"name": "watch", "pkg": "mimetype", "harnesses": ["HC04Watch"], "quick_args": fix(maxlen=2), "thorough_args": fix(maxlen=3), "quick_shards": 32, "thorough_shards": 64},
         {"name": "slicing", "pkg": "mimetype", "harnesses": ["HC05Reader"], "quick_args": fix(maxlen=3), "thorough_args": fix(maxlen=4), "quick_shards": 16, "thorough_shards": 32},
+        {"name": "sequence", "pkg": "mimetype", "harnesses": ["HC05Seq"], "quick_args": fix(maxlen=2), "thorough_args": fix(maxlen=3), "quick_shards": 32, "thorough_shards": 64},
+        {"name": "history", "pkg": "json", "harnesses": ["HC04History"], "quick_args": fix(maxlen=4), "thorough_args": fix(maxlen=5), "quick_shards": 32, "thorough_shards": 64},
     ],
-    "must_reach": ["end", "assert:same-parsed", "assert:same-query-satisfied", "assert:same-verdict-with-recycled-reader", "assert:caller-buffer-not-written", "assert:detect-slices-to-limit"],
+    "must_reach": ["assert:history-same-query-verdict", "assert:second-detection-same-header-bytes", "end", "assert:same-parsed", "assert:same-query-satisfied", "assert:same-verdict-with-recycled-reader", "assert:caller-buffer-not-written", "assert:detect-slices-to-limit"],
     "bounds": {"quick": {"jsonpool": "raw <= 4 bytes, 4 query kinds, recycled state: symbolic ib/firstToken/querySatisfied/failed, path stack height 0..3 (cap 4) with symbolic keys",
                          "csvpool": "raw <= 4 bytes, both delimiters, 4 dirtying recipes with symbolic junk", "watch": "Detect on <= 2 symbolic bytes plus 2 symbolic bytes of spare capacity, limits {0,1,2,3072}"},
                "thorough": {"jsonpool": "<= 6 bytes", "csvpool": "<= 6 bytes", "watch": "<= 3 bytes"}},
@@ -186,6 +199,7 @@ SPECS["C17"] = {
                    "over the other formats is evaluated only on paths where the format itself lets go (ttf -> mdb/accdb).",
     "units": [
         {"name": "step", "pkg": "mimetype", "harnesses": ["HC17Step"], "quick_args": fix(tier=0) + ["-frontier-mult", "2"], "thorough_args": fix(tier=1) + ["-frontier-mult", "2"], "fix_each": {"format": 97}, "heavy_values": {22: 16, 53: 8, 41: 3, 44: 3}, "quick_shards": 1, "thorough_shards": 4},
+        {"name": "entry", "pkg": "mimetype", "harnesses": ["HC05Reader"], "quick_args": fix(maxlen=3), "thorough_args": fix(maxlen=4), "quick_shards": 16, "thorough_shards": 32},
     ],
     "must_reach": ["end", "same-format-still-matches", "handover", "assert:longer-header-still-binary"],
     "bounds": {"quick": {"n": "1..64 and every length within a few bytes of each length guard up to 4194 (list in harness/mimetype/h_c01.go); OLE: reduced list"},
@@ -218,8 +232,10 @@ SPECS["C13"] = {
         {"name": "svconv", "pkg": "magic", "harnesses": ["HC13SvConverse"], "quick_args": fix(maxlen=6), "thorough_args": fix(maxlen=8), "quick_shards": 32, "thorough_shards": 64},
         {"name": "ndconv", "pkg": "magic", "harnesses": ["HC13NdConverse"], "quick_args": fix(maxlen=5), "thorough_args": fix(maxlen=7), "quick_shards": 32, "thorough_shards": 64},
         {"name": "ndstream", "pkg": "magic", "harnesses": ["HC13NdStream"], "quick_shards": 32, "thorough_shards": 64},
+        {"name": "entry", "pkg": "mimetype", "harnesses": ["HC05Reader"], "quick_args": fix(maxlen=3), "thorough_args": fix(maxlen=4), "quick_shards": 16, "thorough_shards": 32},
+        {"name": "ragged", "pkg": "magic", "harnesses": ["HC13Ragged"], "quick_shards": 32, "thorough_shards": 64},
     ],
-    "must_reach": ["end", "assert:table-survives-cut", "assert:every-line-has-the-same-field-count", "assert:complete-line-is-a-json-value", "assert:stream-survives-cut"],
+    "must_reach": ["assert:ragged-table-rejected-at-cut", "assert:ragged-table-rejected-file-ends-at-limit", "assert:detect-slices-to-limit", "end", "assert:table-survives-cut", "assert:every-line-has-the-same-field-count", "assert:complete-line-is-a-json-value", "assert:stream-survives-cut"],
     "bounds": {"quick": {"table": "2..3 rows x 2..3 columns, cells of 1..2 symbolic bytes, LF/CRLF per line, with/without final newline, every limit from end of line 2 to len+1",
                          "svconv": "<= 6 bytes over {, TAB LF CR # a 1 space}", "ndconv": "<= 5 bytes over {[ ] { } \" : , 1 a space LF CR}", "ndstream": "2..3 lines from 6 value templates with symbolic digits"},
                "thorough": {"svconv": "<= 8 bytes", "ndconv": "<= 7 bytes"}},
@@ -251,8 +267,9 @@ SPECS["C12"] = {
         {"name": "utf16", "pkg": "magic", "harnesses": ["HC12UTF16"], "quick_shards": 4, "thorough_shards": 4},
         {"name": "xml", "pkg": "magic", "harnesses": ["HC12XML"], "quick_args": fix(labelLen=1), "thorough_args": fix(labelLen=3), "quick_shards": 32, "thorough_shards": 64},
         {"name": "markup", "pkg": "magic", "harnesses": ["HC12Markup"], "quick_shards": 16, "thorough_shards": 16},
+        {"name": "xmlutf8", "pkg": "magic", "harnesses": ["HC12XMLUTF8"], "quick_shards": 4, "thorough_shards": 4},
     ],
-    "must_reach": ["end", "assert:html-declared-charset-honoured", "assert:bom-wins-over-meta", "assert:utf16-meta-maps-to-utf8", "assert:xml-declared-encoding-honoured", "assert:html-markup-detected"],
+    "must_reach": ["assert:xml-declared-utf8-honoured", "end", "assert:html-declared-charset-honoured", "assert:bom-wins-over-meta", "assert:utf16-meta-maps-to-utf8", "assert:xml-declared-encoding-honoured", "assert:html-markup-detected"],
     "bounds": {"quick": {"label": "1 and 2 symbolic bytes (66^k labels)", "templates": "5 syntaxes x 7 prologues x 3 case variants x symbolic whitespace"},
                "thorough": {"label": "1 and 4 symbolic bytes"}},
     "outside": ["labels longer than the bound or with characters outside [A-Za-z0-9._+-]", "utf-16 prefixed labels other than the five listed", "more than one declaration", "declarations beyond the header"],
@@ -268,8 +285,9 @@ SPECS["C02"] = {
         {"name": "format0", "pkg": "mimetype", "harnesses": ["HC02Format"], "quick_args": fix(labelLen=0), "thorough_args": fix(labelLen=0), "quick_shards": 4, "thorough_shards": 4},
         {"name": "registered", "pkg": "mimetype", "harnesses": ["HC02Registered"], "quick_shards": 1, "thorough_shards": 1},
         {"name": "walk", "pkg": "mimetype", "harnesses": ["HC03Walk"], "quick_args": fix(tier=0, extends=0), "thorough_args": fix(tier=0, extends=0), "quick_shards": 16, "thorough_shards": 16},
+        {"name": "errors", "pkg": "mimetype", "harnesses": ["HC05Reader", "HC05File"], "quick_args": fix(maxlen=2), "thorough_args": fix(maxlen=3), "quick_shards": 16, "thorough_shards": 32},
     ],
-    "must_reach": ["end", "assert:format:string-parses", "assert:format:registered-type", "assert:format:only-charset-parameter", "assert:registered-type-is-bare-media-type", "assert:parameter-only-on-text-types", "assert:chain-ends-at-octet-stream"],
+    "must_reach": ["assert:error-yields-errMIME", "assert:errMIME-is-bare-root", "end", "assert:format:string-parses", "assert:format:registered-type", "assert:format:only-charset-parameter", "assert:registered-type-is-bare-media-type", "assert:parameter-only-on-text-types", "assert:chain-ends-at-octet-stream"],
     "bounds": {"quick": {"label": "0 and 1 arbitrary bytes in 5 carriers"}, "thorough": {"label": "0 and 2 arbitrary bytes"}},
     "outside": ["labels longer than the bound", "carriers other than the five templates"],
     "assumptions": [],
@@ -296,9 +314,11 @@ SPECS["C06"] = {
                    "lock that one side holds exclusively. Interleavings are not enumerated; a violation is replayed natively under the Go race detector.",
     "units": [
         {"name": "pairs", "pkg": "mimetype", "harnesses": ["HC06Pairs"], "args": ["-c06"], "quick_shards": 48, "thorough_shards": 64},
+        {"name": "limitflip", "pkg": "mimetype", "harnesses": ["HC06LimitFlip"], "quick_shards": 16, "thorough_shards": 16},
     ],
-    "must_reach": ["end"],
-    "bounds": {"quick": {"pairs": "all 81 ordered pairs of 9 operations x 5 concrete inputs x alias slice len 0..2, spare capacity 0..1; one prior Extend"}},
+    "must_reach": ["end", "assert:result-is-sequential-for-old-or-new-limit"],
+    "bounds": {"quick": {"pairs": "all 100 ordered pairs of 10 operations x 5 concrete inputs x alias slice len 0..2, spare capacity 0..1; one prior Extend; rules: (R) lockset race freedom, (A) no read-modify-write of a shared cell across two critical sections",
+                         "limitflip": "4 inputs x 36 (old,new) limit pairs, limit changed from inside the first Read"}},
     "outside": ["more than two concurrent operations interacting (argued pairwise)", "the Go memory model below the data-race-free guarantee", "internals of sync (stubbed)",
                 "linearizability of each result w.r.t. a single instant (only per-resource: one atomic load of the limit, one RLock section for the tree)"],
     "assumptions": ["sync.Pool gives exclusive ownership between Get and Put", "sync.RWMutex semantics"],
